@@ -7,6 +7,7 @@ import (
 	"fmt"
 	"math/big"
 	"os"
+	"regexp"
 	"sort"
 	"strings"
 
@@ -134,7 +135,12 @@ func (r *runner) dump() (out []row, err error) {
 					continue
 				}
 				if f, isF := vals[i].(float64); isF {
-					return fmt.Errorf("%s.%s holds the REAL %v", table, c, f)
+					// an INTEGER sum that left int64: SQLite keeps a REAL. Reported as the
+					// (rounded) value of the float; the model has no such cell.
+					r.note("%s.%s holds the REAL %v", table, c, f)
+					v, _ := new(big.Float).SetFloat64(f).Int(nil)
+					out = append(out, mk(bi(tag), bb(addr), bi(t), v))
+					continue
 				}
 				if v := asInt(vals[i]); v != 0 {
 					out = append(out, mk(bi(tag), bb(addr), bi(t), bi(v)))
@@ -353,19 +359,19 @@ func rowString(rw row) string {
 	return "[" + strings.Join(items, ";") + "]"
 }
 
-func emit(path, ident string, sc *scen.Scenario, blocks []string, obs []*obsRec) (int64, error) {
-	f, err := os.Create(path)
-	if err != nil {
-		return 0, err
-	}
-	w := bufio.NewWriterSize(f, 1<<20)
+// emit writes the Coq file. Formats:
+//
+//	plain: every integer an inline decimal literal, every recorded dump spelled
+//	       out in full inside obs_X (Coq needs ~11 ms per 256-bit literal: slow)
+//	named: every literal of 7 or more digits is stated once as `Definition z_N : Z`
+//	       and referenced by name
+//	delta: named, and every dump after the first is `upd <previous dump> <rows
+//	       that disappeared> <rows that appeared>`; vm_compute rebuilds the full
+//	       sorted dump before run_chain compares it
+func emit(path, ident string, sc *scen.Scenario, blocks []string, obs []*obsRec, format string) (int64, error) {
 	s := sc.Schedule
-	fmt.Fprintf(w, "(* GENERATED by harness/cmd/chainrun: scenario %s, seed %d. Do not edit. *)\n", sc.Name, sc.Seed)
-	for _, n := range sc.Notes {
-		fmt.Fprintf(w, "(* %s *)\n", strings.NewReplacer("(*", "( *", "*)", "* )").Replace(n))
-	}
-	fmt.Fprintf(w, "From Model Require Import Obs.\nOpen Scope Z_scope.\n")
-	fmt.Fprintf(w, "Definition cfg_%s : cfg := {| c_PegnetActivation := %d; c_GradingV2Activation := %d; c_TransactionConversionActivation := %d; "+
+	var body strings.Builder
+	fmt.Fprintf(&body, "Definition cfg_%s : cfg := {| c_PegnetActivation := %d; c_GradingV2Activation := %d; c_TransactionConversionActivation := %d; "+
 		"c_PEGPricingActivation := %d; c_OneWaypFCTConversions := %d; c_PegnetConversionLimitActivation := %d; "+
 		"c_PEGFreeFloatingPriceActivation := %d; c_V4OPRUpdate := %d; c_V20HeightActivation := %d; c_V20DevRewardsHeightActivation := %d; "+
 		"c_SprSignatureActivation := %d; c_OneWaySmallAssetsConversions := %d; c_V202EnhanceActivation := %d; c_V204EnhanceActivation := %d; "+
@@ -375,39 +381,93 @@ func emit(path, ident string, sc *scen.Scenario, blocks []string, obs []*obsRec)
 		s.V20HeightActivation, s.V20DevRewardsHeightActivation, s.SprSignatureActivation, s.OneWaySmallAssetsConversions,
 		s.V202EnhanceActivation, s.V204EnhanceActivation, s.V204BurnMintedTokenActivation, s.PIP10AverageActivation,
 		s.Fat2RCDEActivation, s.AveragePeriod)
-	fmt.Fprintf(w, "Definition chain_%s : list block := [\n", ident)
+	fmt.Fprintf(&body, "Definition chain_%s : list block := [\n", ident)
 	for i, b := range blocks {
 		sep := ";"
 		if i == len(blocks)-1 {
 			sep = ""
 		}
-		fmt.Fprintf(w, "  %s%s\n", b, sep)
+		fmt.Fprintf(&body, "  %s%s\n", b, sep)
 	}
-	fmt.Fprintf(w, "].\n")
-	fmt.Fprintf(w, "Definition obs_%s : list obs := [\n", ident)
-	for i, o := range obs {
-		sep := ";"
-		if i == len(obs)-1 {
-			sep = ""
+	fmt.Fprintf(&body, "].\n")
+
+	rowsString := func(rows []row) string {
+		var sb strings.Builder
+		sb.WriteString("[")
+		for j, rw := range rows {
+			if j > 0 {
+				sb.WriteString(";")
+			}
+			sb.WriteString(rowString(rw))
 		}
+		sb.WriteString("]")
+		return sb.String()
+	}
+	first := sc.Schedule.PegnetActivation + 1
+	var obsLines []string
+	var prevRows []row
+	prevName := ""
+	for i, o := range obs {
+		h := first + uint32(i)
 		rows := "None"
 		if o.has {
-			var sb strings.Builder
-			sb.WriteString("Some [")
-			for j, rw := range o.rows {
-				if j > 0 {
-					sb.WriteString(";")
-				}
-				sb.WriteString(rowString(rw))
+			switch {
+			case format != "delta":
+				rows = "Some " + rowsString(o.rows)
+			case prevName == "":
+				prevName = fmt.Sprintf("d_%s_%d", ident, h)
+				fmt.Fprintf(&body, "Definition %s : list row := %s.\n", prevName, rowsString(o.rows))
+				rows = "Some " + prevName
+				prevRows = o.rows
+			default:
+				del, add := diffRows(prevRows, o.rows)
+				name := fmt.Sprintf("d_%s_%d", ident, h)
+				fmt.Fprintf(&body, "Definition %s : list row := upd %s %s %s.\n", name, prevName, rowsString(del), rowsString(add))
+				rows = "Some " + name
+				prevName, prevRows = name, o.rows
 			}
-			sb.WriteString("]")
-			rows = sb.String()
 		}
-		fmt.Fprintf(w, "  {| o_ok := %s; o_rows := %s |}%s\n", coqBool(o.ok), rows, sep)
+		obsLines = append(obsLines, fmt.Sprintf("  {| o_ok := %s; o_rows := %s |}", coqBool(o.ok), rows))
 	}
-	fmt.Fprintf(w, "].\n")
-	fmt.Fprintf(w, "Definition R_%s := Eval vm_compute in run_chain cfg_%s genesis empty_cache chain_%s obs_%s.\n", ident, ident, ident, ident)
-	fmt.Fprintf(w, "Print R_%s.\n", ident)
+	fmt.Fprintf(&body, "Definition obs_%s : list obs := [\n%s\n].\n", ident, strings.Join(obsLines, ";\n"))
+	fmt.Fprintf(&body, "Definition R_%s := Eval vm_compute in run_chain cfg_%s genesis empty_cache chain_%s obs_%s.\n", ident, ident, ident, ident)
+	fmt.Fprintf(&body, "Print R_%s.\n", ident)
+
+	text := body.String()
+	var dict strings.Builder
+	if format != "plain" {
+		names := map[string]int{}
+		var order []string
+		text = bigLiteral.ReplaceAllStringFunc(text, func(lit string) string {
+			k, ok := names[lit]
+			if !ok {
+				k = len(order)
+				names[lit] = k
+				order = append(order, lit)
+			}
+			return fmt.Sprintf("z%s_%d", ident, k)
+		})
+		for k, lit := range order {
+			fmt.Fprintf(&dict, "Definition z%s_%d : Z := %s.\n", ident, k, lit)
+		}
+	}
+
+	f, err := os.Create(path)
+	if err != nil {
+		return 0, err
+	}
+	w := bufio.NewWriterSize(f, 1<<20)
+	fmt.Fprintf(w, "(* GENERATED by harness/cmd/chainrun: scenario %s, seed %d, format %s. Do not edit. *)\n", sc.Name, sc.Seed, format)
+	for _, n := range sc.Notes {
+		fmt.Fprintf(w, "(* %s *)\n", strings.NewReplacer("(*", "( *", "*)", "* )").Replace(n))
+	}
+	fmt.Fprintf(w, "From Model Require Import Obs.\nOpen Scope Z_scope.\n")
+	if format == "delta" {
+		// the rows of [old] that are not in [del], merged with the sorted [add]
+		fmt.Fprintf(w, "Definition upd (old del add : list row) : list row :=\n  merge_rows (filter (fun r => negb (existsb (list_Z_eqb r) del)) old) add.\n")
+	}
+	w.WriteString(dict.String())
+	w.WriteString(text)
 	if err := w.Flush(); err != nil {
 		return 0, err
 	}
@@ -419,4 +479,39 @@ func emit(path, ident string, sc *scen.Scenario, blocks []string, obs []*obsRec)
 		return 0, err
 	}
 	return fi.Size(), nil
+}
+
+var bigLiteral = regexp.MustCompile(`\b[0-9]{7,}\b`)
+
+func rowEq(a, b row) bool {
+	if len(a) != len(b) {
+		return false
+	}
+	for i := range a {
+		if a[i].Cmp(b[i]) != 0 {
+			return false
+		}
+	}
+	return true
+}
+
+// diffRows: both lists sorted by rowLess; returns old\new and new\old (sorted).
+func diffRows(old, cur []row) (del, add []row) {
+	i, j := 0, 0
+	for i < len(old) && j < len(cur) {
+		switch {
+		case rowEq(old[i], cur[j]):
+			i++
+			j++
+		case rowLess(old[i], cur[j]):
+			del = append(del, old[i])
+			i++
+		default:
+			add = append(add, cur[j])
+			j++
+		}
+	}
+	del = append(del, old[i:]...)
+	add = append(add, cur[j:]...)
+	return
 }
